@@ -85,6 +85,18 @@ func (fd *FuncDoc) otherKeyAllowed(name string, keyArgs List) bool {
 	return false
 }
 
+// requiredCount returns the number of required parameters, the ones before
+// the first lambda list keyword.
+func (fd *FuncDoc) requiredCount() (cnt int) {
+	for _, a := range fd.Args {
+		if strings.HasPrefix(a.Name, "&") {
+			break
+		}
+		cnt++
+	}
+	return
+}
+
 // LoadForm return a argument list for function or lambda args list.
 func (fd *FuncDoc) LoadForm() Object {
 	dl := make(List, len(fd.Args))
